@@ -400,8 +400,8 @@ def explore(ctx, mode):
                      "(two levels), TesterPresent, session control, ECUReset and the identifier services in the default session",
                      {"candidates": [s for s, _ in candidate_configs(env)]}, spec_violated=False, site="harness/secsm.py")
         return
-    d1 = (5 if quick else 6) if mode == "c13" else (4 if quick else 5)
-    d2 = (4 if quick else 5) if mode == "c13" else (3 if quick else 4)
+    d1 = 5 if quick else 6
+    d2 = (4 if quick else 5) if mode == "c13" else (3 if quick else 5)
     machines = []
     # one level, full depth, all switches on
     m = Machine(ctx, env, reals1[0], mode)
